@@ -17,12 +17,12 @@ import (
 type SiteKind int
 
 const (
-	SiteTypeByte  SiteKind = iota // a field/element/key/value type code (1 byte)
-	SiteLength                    // a binary length (4 bytes)
-	SiteCount                     // a list/set/map count (4 bytes)
-	SiteFieldID                   // a field id (2 bytes)
-	SiteBoundary                  // a position where a new field header may start (incl. before the stop byte)
-	SiteBool                      // a bool byte
+	SiteTypeByte SiteKind = iota // a field/element/key/value type code (1 byte)
+	SiteLength                   // a binary length (4 bytes)
+	SiteCount                    // a list/set/map count (4 bytes)
+	SiteFieldID                  // a field id (2 bytes)
+	SiteBoundary                 // a position where a new field header may start (incl. before the stop byte)
+	SiteBool                     // a bool byte
 )
 
 // Site is one interesting offset.
